@@ -60,10 +60,36 @@ def ir_merge(target, other):
             ):
                 target_params[name]["default"] = other_params[name]["default"]
 
-        for name in other_params.keys() - target_params.keys():
-            target_params[name] = other_params[name]
+        target_only = [name for name in target_params if name not in other_params]
+        for name in other_params:
+            if name not in target_params:
+                target_params[name] = other_params[name]
 
-        target["params"] = target_params
+        # Relative order is that of the source: `other` (e.g., the signature) orders the names it knows,
+        # names only found in `target` stay ahead of the first common name that followed them
+        merged_params = OrderedDict()
+        for name in other_params:
+            for _name in target_only:
+                if _name in merged_params:
+                    continue
+                following = next(
+                    (
+                        nxt
+                        for nxt in tuple(target_params)[
+                            tuple(target_params).index(_name) + 1 :
+                        ]
+                        if nxt in other_params
+                    ),
+                    None,
+                )
+                if following == name:
+                    merged_params[_name] = target_params[_name]
+            merged_params[name] = target_params[name]
+        for name in target_only:
+            if name not in merged_params:
+                merged_params[name] = target_params[name]
+
+        target["params"] = merged_params
 
     if "return_type" not in (target.get("returns") or iter(())):
         target["returns"] = other["returns"]
